@@ -88,6 +88,8 @@ def render_line(ln):
         return ln.get("text", "int v;")
     if k == "blank":
         return ""
+    if k == "comment":
+        return "/* " + ln.get("text", "note") + " */"
     if k == "if":
         return "#if " + render_expr(ln["expr"])
     if k == "elif":
@@ -121,7 +123,7 @@ def render_file(lines):
 
 
 def counted(ln):
-    return ln["kind"] != "blank"
+    return ln["kind"] not in ("blank", "comment")
 
 
 # ------------------------------------------------------------------ reference
